@@ -86,6 +86,8 @@ def _fresh_like(simu):
     mat = Models.Elastic.Isotropic(2, E=float(m.E), v=float(m.v), planeStress=bool(m.planeStress), thickness=float(m.thickness))
     s = Simulations.Elastic(mesh, mat)
     s.rho = simu.rho
+    # the damping coefficients are part of the final configuration (set BEFORE the first assembly of the fresh simulation)
+    s.Set_Rayleigh_Damping_Coefs(coefM=getattr(simu, "_Elastic__coefM", 0.0), coefK=getattr(simu, "_Elastic__coefK", 0.0))
     return s
 
 
@@ -1145,7 +1147,8 @@ def _ops():
         s.mesh = patches.real_mesh("TRI3", coords, connect)
     def algo(s): s.Solver_Set_Hyperbolic_Algorithm(dt=0.1)
     def samemesh(s): s.mesh = s.mesh
-    return dict(same_mesh=samemesh, E=setE, v=setv, planeStress=ps, thickness=thick, rho=rho, translate=tr, rotate=rot, symmetry=symm, coord_setter=coord,
+    def rayleigh(s): s.Set_Rayleigh_Damping_Coefs(coefM=0.3 + getattr(s, "_Elastic__coefM", 0.0), coefK=0.2 + getattr(s, "_Elastic__coefK", 0.0))
+    return dict(rayleigh=rayleigh, same_mesh=samemesh, E=setE, v=setv, planeStress=ps, thickness=thick, rho=rho, translate=tr, rotate=rot, symmetry=symm, coord_setter=coord,
                 replace_mesh=newmesh, algo=algo)
 
 
